@@ -79,6 +79,8 @@ class Module:
         self.funcs = []     # Function
         self.decls = {}     # name -> (retty, [paramtys], vararg)
         self.aliases = {}   # alias symbol -> aliasee symbol
+        self.attr_groups = {}   # '#N' -> attribute text
+        self.decl_attrs = {}    # declared symbol -> ['#N', ...]
 
     def resolve(self, t):
         while isinstance(t, NamedTy):
@@ -327,11 +329,20 @@ def parse_module(text):
         ln = lines[i]
         if not ln.strip():
             i += 1; continue
-        if ln.startswith(('target ', 'source_filename', 'attributes ', '!', 'module asm')):
+        if ln.startswith('attributes '):
+            m = re.match(r'attributes (#\d+) = \{(.*)\}', ln)
+            if m:
+                M.attr_groups[m.group(1)] = m.group(2)
+            i += 1; continue
+        if ln.startswith(('target ', 'source_filename', '!', 'module asm')):
             i += 1; continue
         if ln.startswith('declare'):
-            p = P(tokenize(ln)); p.next()
+            toks_ = tokenize(ln)
+            p = P(toks_); p.next()
             parse_header(M, p, decl=True)
+            dn = [v for k, v in toks_ if k in ('name', 'qname') and v[0] == '@']
+            if dn:
+                M.decl_attrs[dn[0]] = [v for k, v in toks_ if k == 'attr']
             i += 1; continue
         if ln.startswith('define'):
             p = P(tokenize(ln.rstrip().rstrip('{')))
@@ -1189,6 +1200,13 @@ class Translator:
         self.fcache = {}   # name -> (proto, body, refs)
         self.nstructs_emitted = 0
 
+    def _noreturn_decl(self, s):
+        """a body-less external that never returns can only panic or abort: modelled as a panic entry point
+        (libcore has many: slice_error_fail, panic_already_borrowed, ...); allocator and abort symbols are matched before"""
+        if s in self.byname or s not in self.M.decls:
+            return False
+        return any('noreturn' in self.M.attr_groups.get(a, '') for a in self.M.decl_attrs.get(s, []))
+
     def entries(self, prefix='h_'):
         return sorted(f.name[1:] for f in self.M.funcs if f.name[1:].startswith(prefix))
 
@@ -1245,7 +1263,7 @@ class Translator:
             seen.add(s)
             if s.startswith('@llvm.'):
                 continue
-            if is_panic_entry(s) or is_abort_entry(s) or is_alloc_entry(s):
+            if is_panic_entry(s) or is_abort_entry(s) or is_alloc_entry(s) or self._noreturn_decl(s):
                 stubs.add(s)
                 continue
             if s in self.byname or s in M.aliases:
